@@ -221,3 +221,313 @@ def oracle_accounting(in_doc, edits, res):
     if not ok:
         fails.append(f"accepted result is not the input with a non-conflicting subset of {a} submitted edits applied")
     return fails
+
+
+# ------------------------------------------------------------------------------------------------ C09 package validity
+ISO = re.compile(r"^\d{4}-\d{2}-\d{2}T\d{2}:\d{2}:\d{2}(\.\d+)?(Z|[+-]\d{2}:\d{2})?$")
+
+
+def _story_nodes(doc):
+    for name, blocks in [("body", doc["body"])] + [(f"h{i}", s["blocks"]) for i, s in enumerate(doc.get("headers", []))] + \
+                        [(f"f{i}", s["blocks"]) for i, s in enumerate(doc.get("footers", []))]:
+        for p in sem.iter_paragraphs(blocks, expand_vmerge=True):
+            yield name, p
+
+
+def comment_marker_counts(doc):
+    cs, ce, cr = {}, {}, {}
+    for _, p in _story_nodes(doc):
+        def visit(nodes):
+            for n in nodes:
+                k = n["k"]
+                if k == "cs":
+                    cs[n["id"]] = cs.get(n["id"], 0) + 1
+                elif k == "ce":
+                    ce[n["id"]] = ce.get(n["id"], 0) + 1
+                elif k == "r":
+                    for a in n["run"]["ch"]:
+                        if a["k"] == "cref":
+                            cr[a["id"]] = cr.get(a["id"], 0) + 1
+                elif k == "ins":
+                    visit(n["ch"])
+        visit(p["nodes"])
+    return cs, ce, cr
+
+
+def validate_package(out_bytes, in_doc, out_doc, author=SESSION_AUTHOR):
+    """C09 clauses on the saved bytes / the independently read document."""
+    import io
+    import zipfile
+
+    from lxml import etree
+
+    from . import ooxml
+
+    fails = []
+    try:
+        z = zipfile.ZipFile(io.BytesIO(out_bytes))
+        names = z.namelist()
+        if z.testzip() is not None:
+            fails.append("corrupt zip member")
+    except Exception as e:
+        return [f"saved result is not a loadable package: {e}"]
+    if len(names) != len(set(names)):
+        fails.append(f"duplicate package members: {sorted(n for n in names if names.count(n) > 1)[:3]}")
+    for n in names:
+        if n.endswith(".xml") or n.endswith(".rels"):
+            try:
+                etree.fromstring(z.read(n))
+            except Exception as e:
+                fails.append(f"part {n} is not well-formed: {e}")
+    pkg = ooxml.Package(out_bytes)
+    for n in names:
+        if not n.endswith("/") and pkg.content_type(n) is None:
+            fails.append(f"no content type for {n}")
+    for pn in pkg.overrides:
+        if pn[1:] not in names:
+            fails.append(f"content type override for missing part {pn}")
+    for n in names:
+        if n.endswith(".rels"):
+            base = n.replace("_rels/", "").rsplit(".rels", 1)[0]
+            for r in pkg.rels_of(base) if base in names or base == "" else []:
+                if r.get("mode") == "External":
+                    continue
+                tgt = pkg.resolve(base, r["target"])
+                if tgt not in names:
+                    fails.append(f"relationship {r['id']} of {base} points to missing part {tgt}")
+    # revision marks
+    def ids_by_story(doc):
+        out = {}
+        for name, p in _story_nodes(doc):
+            for n in p["nodes"]:
+                if n["k"] in ("ins", "del"):
+                    out.setdefault(name, []).append(n["id"])
+        return out
+    in_ids, out_ids = ids_by_story(in_doc), ids_by_story(out_doc)
+    for story, ids in out_ids.items():
+        was_unique = len(in_ids.get(story, [])) == len(set(in_ids.get(story, [])))
+        if was_unique and len(ids) != len(set(ids)):
+            dup = sorted({i for i in ids if ids.count(i) > 1})
+            fails.append(f"revision ids not unique in {story}: {dup[:4]}")
+    for name, p in _story_nodes(out_doc):
+        for n in p["nodes"]:
+            if n["k"] in ("ins", "del") and n.get("author") == author:
+                if not n.get("date") or not ISO.match(n["date"]):
+                    fails.append(f"session mark {n['id']} has no ISO-8601 date: {n.get('date')!r}")
+    fails.extend(nesting_problems(out_doc)[:3])
+    # comments
+    cids = [c["id"] for c in out_doc.get("comments", [])]
+    if len(cids) != len(set(cids)):
+        fails.append("comment ids not unique")
+    cs, ce, cr = comment_marker_counts(out_doc)
+    ics, ice, icr = comment_marker_counts(in_doc)
+    for cid in set(cs) | set(ce) | set(cr):
+        trip = (cs.get(cid, 0), ce.get(cid, 0), cr.get(cid, 0))
+        itrip = (ics.get(cid, 0), ice.get(cid, 0), icr.get(cid, 0))
+        # a range may disappear as a whole (its enclosing insertion was rejected, accept-all strips ranges); what
+        # must not happen is half a range, a duplicated one or a range without reference
+        ok = trip == (1, 1, 1) or trip == itrip or (trip[0] == trip[1] == 0 and trip[2] <= max(1, itrip[2]))
+        if not ok:
+            fails.append(f"comment {cid}: start/end/reference counts {trip} (input had {itrip})")
+        if cid not in cids and cid not in {c for c in (set(ics) | set(ice) | set(icr))}:
+            fails.append(f"comment range {cid} has no entry in the comments part")
+    oldc = {c["id"] for c in in_doc.get("comments", [])}
+    new = [c for c in out_doc.get("comments", []) if c["id"] not in oldc]
+    ex = [e["para_id"] for e in out_doc.get("comments_ex", [])]
+    idl = [e["para_id"] for e in out_doc.get("comments_ids", [])]
+    dur = {e["para_id"]: e["durable"] for e in out_doc.get("comments_ids", [])}
+    cex = [e["durable"] for e in out_doc.get("comments_cex", [])]
+    for c in new:
+        pids = [p.get("para_id") for p in c["paras"] if p.get("para_id")]
+        if not pids:
+            fails.append(f"new comment {c['id']} has no paragraph id")
+            continue
+        pid = pids[-1]
+        if ex.count(pid) != 1:
+            fails.append(f"new comment {c['id']} listed {ex.count(pid)} times in commentsExtended")
+        if idl.count(pid) != 1:
+            fails.append(f"new comment {c['id']} listed {idl.count(pid)} times in commentsIds")
+        elif cex.count(dur[pid]) != 1:
+            fails.append(f"new comment {c['id']} listed {cex.count(dur[pid])} times in commentsExtensible")
+    return fails
+
+
+# ------------------------------------------------------------------------------------------------ C10 comments
+def comment_ranges(doc):
+    """comment id -> list of (story, paragraph index, nodes inside the range) for ranges inside one paragraph,
+    plus 'spanning' ranges (start and end in different paragraphs)"""
+    out = {}
+    open_ = {}
+    for si, (name, p) in enumerate(_story_nodes(doc)):
+        flat = []
+        for n in p["nodes"]:
+            if n["k"] == "ins":
+                flat.append(("ins_open", n))
+                for c in n["ch"]:
+                    flat.append((c["k"], c))
+                flat.append(("ins_close", n))
+            else:
+                flat.append((n["k"], n))
+        for k, n in flat:
+            if k == "cs":
+                open_[n["id"]] = []
+            elif k == "ce":
+                if n["id"] in open_:
+                    out[n["id"]] = open_.pop(n["id"])
+            else:
+                for lst in open_.values():
+                    lst.append((k, n))
+    return out
+
+
+def oracle_edit_comments(in_doc, edits, res, raw_out, author=SESSION_AUTHOR):
+    """C10 for a batch in which every edit is locatable and non-conflicting (all applied)."""
+    fails = []
+    out_doc = res["out_doc"]
+    oldc = {c["id"] for c in in_doc.get("comments", [])}
+    if [c for c in out_doc["comments"] if c["id"] in oldc] != in_doc.get("comments", []):
+        fails.append("existing comments changed (text / author / date / order)")
+    new = [c for c in out_doc["comments"] if c["id"] not in oldc]
+    want = [e for e in edits if e.get("comment") and e.get("locatable", True) and not (e["kind"] == "same")]
+    texts_new = sorted("".join(t for p in c["paras"] for t in p["text"]) for c in new)
+    texts_want = sorted(e["comment"] for e in want)
+    if texts_new != texts_want:
+        fails.append(f"comments created {texts_new} != comments requested by applied edits {texts_want}")
+        return fails
+    ranges = comment_ranges(out_doc)
+    segs = None
+    for c in new:
+        if c.get("author") != author:
+            fails.append(f"new comment {c['id']} is attributed to {c.get('author')!r}")
+        text = "".join(t for p in c["paras"] for t in p["text"])
+        e = next(x for x in want if x["comment"] == text)
+        rng = ranges.get(c["id"])
+        if rng is None:
+            fails.append(f"comment {text!r} is not anchored in the text (no range)")
+            continue
+        marks = [n for k, n in rng if k in ("ins_open", "del") and n.get("author") == author]
+        if not marks:
+            fails.append(f"comment {text!r} is anchored on a range without any change of this run")
+            continue
+        related = False
+        for m in marks:
+            if m["k"] == "del":
+                dt = "".join("".join(sem.run_chars(r)) for r in m["runs"])
+                related |= bool(dt) and dt in e["target"]
+            else:
+                it = "".join("".join(sem.run_chars(c2["run"])) for c2 in m["ch"] if c2["k"] == "r")
+                plain_new = e["new"].replace("*", "").replace("_", "").replace("#", "")
+                related |= (it.replace("_", "") in plain_new) if it else False
+        if not related:
+            fails.append(f"comment {text!r} is anchored on changes that do not belong to its edit")
+        # shown with the change in the raw view
+        if segs is None:
+            try:
+                segs = sem.parse_critic(raw_out)
+            except sem.CriticError as ex:
+                fails.append(f"raw view of the result is not balanced CriticMarkup: {ex}")
+                return fails
+        metas = [t for k, t in segs if k == "meta" and f"[Com:{c['id']}]" in t]
+        if not metas:
+            fails.append(f"comment {text!r} (Com:{c['id']}) is not shown in the raw view")
+        elif not any(f"[Chg:{m['id']}]" in t for t in metas for m in marks):
+            fails.append(f"comment {text!r} is not shown together with the change it explains")
+    return fails
+
+
+# ------------------------------------------------------------------------------------------------ C16 formatting
+SPAN = re.compile(r"(\*\*(?=\S).+?(?<=\S)\*\*)|((?<![\w_])_(?=[^\s_]).*?(?<=[^\s_])_(?![\w_]))")
+
+
+def render_spans(text, bold=False, italic=False):
+    """[(text, bold, italic)] — the reading of 'well-formed **bold** / _italic_ span' used by the oracle"""
+    if not text:
+        return []
+    m = SPAN.search(text)
+    if not m:
+        return [(text, bold, italic)]
+    out = []
+    if text[:m.start()]:
+        out.append((text[:m.start()], bold, italic))
+    if m.group(1):
+        out += render_spans(m.group(1)[2:-2], True, italic)
+    else:
+        out += render_spans(m.group(2)[1:-1], bold, True)
+    out += render_spans(text[m.end():], bold, italic)
+    return out
+
+
+def session_insertions(out_doc, author=SESSION_AUTHOR):
+    """[(paragraph, node index, ins node)] of the session in document order (body and stories)"""
+    out = []
+    for name, p in _story_nodes(out_doc):
+        for i, n in enumerate(p["nodes"]):
+            if n["k"] == "ins" and n.get("author") == author:
+                out.append((p, i, n))
+    return out
+
+
+def oracle_formatting(in_doc, edit, res, author=SESSION_AUTHOR):
+    """C16 for a batch of ONE applied edit: inherited run properties, rendered spans / literal text."""
+    fails = []
+    out_doc = res["out_doc"]
+    ins = session_insertions(out_doc, author)
+    # (1) inherited formatting: other run properties of an original neighbour in the same paragraph
+    for p, i, n in ins:
+        def rests_of(node):
+            if node["k"] == "r":
+                return [node["run"].get("rest", "")] if any(a["k"] in ("t", "tab", "br", "cr", "dt") for a in node["run"]["ch"]) or True else []
+            if node["k"] == "del":
+                return [r.get("rest", "") for r in node["runs"]]
+            if node["k"] == "ins" and node.get("author") != author:
+                return [c["run"].get("rest", "") for c in node["ch"] if c["k"] == "r"]
+            return []
+        before = next((rests_of(x)[-1:] for x in reversed(p["nodes"][:i]) if rests_of(x)), [])
+        after = next((rests_of(x)[:1] for x in p["nodes"][i + 1:] if rests_of(x)), [])
+        allowed = set(before + after)
+        whole_para = len(p["nodes"]) == 1 or all(x["k"] in ("ins", "cs", "ce") or (x["k"] == "r" and any(a["k"] == "cref" for a in x["run"]["ch"])) for x in p["nodes"])
+        if whole_para:
+            continue  # a paragraph created by the session: formatting source is in the anchor paragraph (checked below)
+        for c in n["ch"]:
+            if c["k"] == "r" and c["run"].get("rest", "") not in allowed:
+                fails.append(f"inserted run {''.join(a.get('s', '') for a in c['run']['ch'])!r} has run properties "
+                             f"{c['run'].get('rest', '')!r}, its original neighbours have {sorted(allowed)}")
+                break
+    # (2) text of the insertion: spans rendered, everything else literal
+    new = edit["new"]
+    if edit["kind"] in ("multiline", "heading") or "\n" in new or new.startswith("#"):
+        # every line is inserted: heading lines without their '# ' prefix, all other lines literally (spans rendered)
+        lines = [ln for ln in re.split(r"[\r\n]+", new)]
+        if lines and lines[-1] == "":
+            lines.pop()
+        exp_text = ""
+        for ln in lines:
+            m = re.match(r"^(#+) (.*)$", ln)
+            body = m.group(2).strip() if m else ln
+            exp_text += "".join(t for t, _, _ in render_spans(body))
+        tgt = edit["target"]
+        got_text = "".join("".join(sem.run_chars(c["run"])) for p, i, n in ins for c in n["ch"] if c["k"] == "r")
+        # an extension / prefix keeps the target: only the added part is inserted
+        cands = {exp_text}
+        if new.startswith(tgt):
+            cands.add("".join(t for t, _, _ in render_spans(new[len(tgt):].replace("\n", "").replace("\r", ""))))
+        if edit["kind"] in ("multiline", "heading") and got_text not in cands and not any(got_text and got_text in c for c in cands):
+            fails.append(f"new text {new!r} was inserted as {got_text!r}")
+        elif edit["kind"] in ("multiline", "heading") and len(got_text) < min(len(c) for c in cands) - len(tgt):
+            fails.append(f"part of the new text {new!r} is missing: inserted {got_text!r}")
+    if edit["kind"] in ("replace", "literal", "markdown") and "\n" not in new and not new.startswith("#"):
+        exp = [(t, b, i) for t, b, i in render_spans(new)]
+        got = []
+        for p, i, n in ins:
+            for c in n["ch"]:
+                if c["k"] == "r":
+                    t = "".join(a.get("s", "") for a in c["run"]["ch"] if a["k"] == "t")
+                    got.append((t, sem.onoff_true(c["run"].get("b")), sem.onoff_true(c["run"].get("i"))))
+        # inherited bold/italic of the style source is not 'rendering': compare text always, flags only where a span asks
+        if "".join(t for t, _, _ in got) != "".join(t for t, _, _ in exp):
+            fails.append(f"new text {new!r} was inserted as {''.join(t for t, _, _ in got)!r}, expected {''.join(t for t, _, _ in exp)!r}")
+        elif len(got) == len(exp):
+            for (t, b, i), (t2, b2, i2) in zip(got, exp):
+                if (b2 and not b) or (i2 and not i):
+                    fails.append(f"span {t2!r} of {new!r} is not rendered bold/italic")
+    return fails
